@@ -79,7 +79,11 @@ def _observe(job):
         np.random.seed(seed)
         m = fac(X)
         try:
-            m.fit(X.copy())
+            if seed % 2:        # the copula hands columns over as pandas Series: fit through a Series whose index is not 0..n-1
+                import pandas as pd
+                m.fit(pd.Series(X.copy(), index=np.random.RandomState(seed).permutation(len(X)) + 5, name='col'))
+            else:
+                m.fit(X.copy())
         except Exception as ex:
             return {'skip': True, 'model': mname, 'shape': shape, 'n': n, 'why': 'fit raised ' + type(ex).__name__}
         lo, hi = float(np.min(X)), float(np.max(X))
